@@ -87,11 +87,39 @@ def real(root, comps):
     return '/'.join(comps)
 
 
+SPELLINGS = ('abs', 'rel', 'reldot', 'dotdot', 'dot', 'dslash', 'trail')
+
+
+def spell(p, sp):
+    """another spelling of the absolute path `p` that names the same file (no symlinks involved):
+    relative to the worker's current directory (an empty directory next to the world, so the
+    relative path starts with '..'), with a 'x/..' detour, a '.' segment, a doubled separator, a
+    trailing separator (directories only)"""
+    if sp in (None, 'abs'):
+        return p
+    if sp == 'rel':
+        return os.path.relpath(p, os.getcwd())
+    if sp == 'reldot':
+        return os.path.join('.', os.path.relpath(p, os.getcwd()))
+    d, b = os.path.split(p)
+    if sp == 'dotdot':
+        return os.path.join(d, '..', os.path.basename(d), b)
+    if sp == 'dot':
+        return d + '/./' + b
+    if sp == 'dslash':
+        return d + '//' + b
+    if sp == 'trail':
+        return p + '/' if os.path.isdir(p) else p
+    raise AssertionError(sp)
+
+
 def abstract(root, p):
     """file system path -> abstract path (None stays None)"""
     if p is None:
         return None
     s = os.fspath(p)
+    if s.startswith('/') or '..' in s.split('/') or '.' in s.split('/'):
+        s = os.path.normpath(os.path.join(os.getcwd(), s))      # the spelling is not part of the projection
     if s == root:
         return list(ROOT)
     if s.startswith(root + os.sep):
@@ -424,7 +452,7 @@ def do_op(torf, t, op, root, held=None):
         do_flist(t, f, held)
         return 'ok'
     if k == 'setPath':
-        t.path = None if op['p'] is None else real(root, op['p'])
+        t.path = None if op['p'] is None else spell(real(root, op['p']), op.get('sp'))
     elif k == 'setFiles':
         t.files = [torf.File(real(root, p), size=n) for p, n in op['fs']]
     elif k == 'filesDel':
@@ -437,13 +465,14 @@ def do_op(torf, t, op, root, held=None):
     elif k == 'filesClear':
         t.files.clear()
     elif k == 'setFilepaths':
-        t.filepaths = [real(root, p) for p in op['ps']]
+        sps = op.get('sp') or [None] * len(op['ps'])
+        t.filepaths = [spell(real(root, p), sp) for p, sp in zip(op['ps'], sps)]
     elif k == 'fpDel':
         fp = t.filepaths
         if len(fp):
             del fp[op['i'] % len(fp)]
     elif k == 'fpAppend':
-        t.filepaths.append(real(root, op['p']))
+        t.filepaths.append(spell(real(root, op['p']), op.get('sp')))
     elif k == 'fpClear':
         t.filepaths.clear()
     elif k == 'setName':
@@ -538,8 +567,10 @@ def fresh_pieces(t, obs, root):
     return b''.join(out)
 
 
-def spec_check(torf, t, obs, root):
-    """Property C09 evaluated on the real object.  Returns a list of deviation codes."""
+def spec_check(torf, t, obs, root, detached=False):
+    """Property C09 evaluated on the real object.  Returns a list of deviation codes.
+    `detached`: the object is a copy() that inherited its hashes and has had no content path since
+    (like a torrent read from a file): hashes / readiness without a content path are not deviations."""
     dev = []
     info = t.metainfo['info']
     pmin, pmax, pl = obs['pmin'], obs['pmax'], obs['pl']
@@ -563,6 +594,9 @@ def spec_check(torf, t, obs, root):
     if (obs['mode'] == 0) != (nl == 0) or (obs['mode'] == 1 and nl != 1) or \
             ('length' in info and 'files' in info):
         dev.append('mode-mismatch')
+    if obs['mode'] == 2 and len(obs['files']) == 1 and len(obs['files'][0][0]) == 0:
+        # one file that is not in a directory is a single-file torrent: `length` + name, no `files`
+        dev.append('files-entry-with-empty-path')
     if obs['size'] > 0 and pl is None:
         dev.append('no-piece-length')
     if pl and obs['size'] > 0 and obs['numPieces'] != -(-obs['size'] // pl):
@@ -572,7 +606,8 @@ def spec_check(torf, t, obs, root):
         if not pl or obs['size'] <= 0 or len(raw) % 20 or len(raw) // 20 != -(-obs['size'] // pl):
             dev.append('piece-count!=ceil')
         if t.path is None:
-            dev.append('pieces-without-path')
+            if not detached:
+                dev.append('pieces-without-path')
         elif pl and mult16(pl):
             try:
                 fresh = fresh_pieces(t, obs, root)
@@ -582,7 +617,8 @@ def spec_check(torf, t, obs, root):
                 dev.append('stale-pieces')
     if obs['ready']:
         if t.path is None:
-            dev.append('ready-without-path')
+            if not detached:
+                dev.append('ready-without-path')
         else:
             try:
                 r = t.verify(os.fspath(t.path), threads=1)
@@ -731,6 +767,35 @@ def _resumable(ops, k, dev):
             and k + 1 < len(ops) and ops[k + 1]['k'] == ops[k]['k'])
 
 
+def exec_op(torf, t, op, root, held):
+    """run one operation on one object: (outcome kind, deviation codes of the call itself)"""
+    dev = []
+    try:
+        res = do_op(torf, t, op, root, held)
+        if res != 'ok':
+            dev.append(res)
+    except torf.TorfError as e:
+        res = type(e).__name__
+    except re.error as e:
+        # the documented exception of the regex filter lists; anywhere else it is undocumented
+        res = 're.error' if op['k'] in RX_OPS else 're.error-outside-regex-filter-operation'
+    except IndexError as e:
+        # what `lst[i] = v` on a filter list raises for an index out of range
+        res = 'IndexError' if op['k'] in INDEX_OPS else 'IndexError-outside-index-assignment'
+    except RuntimeError as e:
+        res = 'RuntimeError'
+    except ValueError as e:
+        # what `lst.remove(x)` raises for an item that is not in the list
+        res = 'ValueError' if op['k'] in REMOVE_OPS else 'ValueError-outside-remove'
+    except _Timeout:
+        raise
+    except Exception as e:   # noqa: undocumented exception type
+        res = type(e).__name__
+    if res != 'ok' and res not in DOCUMENTED and res not in ('re.error', 'IndexError', 'ValueError') and not res.startswith('generate-'):
+        dev.append('undocumented-exception-' + res)
+    return res, dev
+
+
 def run_history(torf, ops, root, stop_on_deviation=True, timeout=60):
     """Run one history on a fresh Torrent.  Returns the list of steps
     {'obs':…, 'res':…, 'dev': [codes]} (truncated after the first deviation, unless `_resumable`)."""
@@ -751,30 +816,7 @@ def run_history(torf, ops, root, stop_on_deviation=True, timeout=60):
         tree = None
         pre = init
         for op in ops:
-            dev = []
-            try:
-                res = do_op(torf, t, op, root, held)
-                if res != 'ok':
-                    dev.append(res)
-            except torf.TorfError as e:
-                res = type(e).__name__
-            except re.error as e:
-                # the documented exception of the regex filter lists; anywhere else it is undocumented
-                res = 're.error' if op['k'] in RX_OPS else 're.error-outside-regex-filter-operation'
-            except IndexError as e:
-                # what `lst[i] = v` on a filter list raises for an index out of range
-                res = 'IndexError' if op['k'] in INDEX_OPS else 'IndexError-outside-index-assignment'
-            except RuntimeError as e:
-                res = 'RuntimeError'
-            except ValueError as e:
-                # what `lst.remove(x)` raises for an item that is not in the list
-                res = 'ValueError' if op['k'] in REMOVE_OPS else 'ValueError-outside-remove'
-            except _Timeout:
-                raise
-            except Exception as e:   # noqa: undocumented exception type
-                res = type(e).__name__
-            if res != 'ok' and res not in DOCUMENTED and res not in ('re.error', 'IndexError', 'ValueError') and not res.startswith('generate-'):
-                dev.append('undocumented-exception-' + res)
+            res, dev = exec_op(torf, t, op, root, held)
             obs = project(t, root)
             dev += spec_check(torf, t, obs, root)
             tree = tree_after(op, res, tree)
@@ -782,6 +824,94 @@ def run_history(torf, ops, root, stop_on_deviation=True, timeout=60):
             pre = obs
             steps.append({'obs': obs, 'res': res, 'dev': dev})
             if dev and stop_on_deviation and not _resumable(ops, len(steps) - 1, dev):
+                break
+    except _Timeout:
+        steps.append({'obs': None, 'res': 'timeout', 'dev': ['timeout']})
+    finally:
+        signal.alarm(0)
+        signal.signal(signal.SIGALRM, old)
+    return {'init': init, 'steps': steps}
+
+
+# ---------------------------------------------------------------------------------------------
+# two objects: Torrent.copy()
+
+INDEPENDENT_KEYS = None     # the whole projection
+
+
+def _pieces_raw(t):
+    return t.metainfo['info'].get('pieces')
+
+
+def run_history2(torf, ops, root, timeout=90):
+    """A history on TWO objects (both start as Torrent()).  op['on'] (0|1, default 0) selects the
+    object; {'k': 'copy', 'on': i} is `other = objs[i].copy()`.  After every step BOTH objects are
+    projected; the C09 clauses are evaluated on the object that was worked on (for a copy: on the new
+    object), and independence on the other: its projection and its raw hashes are exactly as before.
+    Steps: {'obs': [obs0, obs1], 'res', 'dev'}; stops at the first deviation."""
+    steps = []
+    old = signal.signal(signal.SIGALRM, _alarm)
+    signal.alarm(timeout)
+    init = None
+    try:
+        try:
+            objs = [torf.Torrent(), torf.Torrent()]
+            init = project(objs[0], root)
+        except _Timeout:
+            raise
+        except Exception as e:   # noqa
+            return {'init': None, 'steps': [{'obs': None, 'res': type(e).__name__,
+                                             'dev': ['constructor-raised-' + type(e).__name__]}]}
+        held = [{}, {}]
+        tree = [None, None]
+        detached = [False, False]
+        pre = [init, project(objs[1], root)]
+        praw = [None, None]
+        for op in ops:
+            i = int(op.get('on', 0))
+            j = 1 - i
+            if op['k'] == 'copy':
+                dev = []
+                try:
+                    objs[j] = objs[i].copy()
+                    res = 'ok'
+                except _Timeout:
+                    raise
+                except Exception as e:   # noqa
+                    res = type(e).__name__
+                    dev.append('undocumented-exception-' + res)
+                held[j] = {}
+                tree[j] = None
+                obs = [None, None]
+                obs[i] = project(objs[i], root)
+                obs[j] = project(objs[j], root)
+                detached[j] = obs[j]['pieces'] is not None and obs[j]['path'] is None
+                if obs[i] != pre[i] or _pieces_raw(objs[i]) != praw[i]:
+                    dev.append('copy-changed-the-original')
+                # "a new Torrent instance with the same metainfo"
+                same = ('name', 'mode', 'length', 'files', 'pl', 'pieces', 'comment', 'keys', 'size')
+                if any(obs[j][k2] != obs[i][k2] for k2 in same) or _pieces_raw(objs[j]) != _pieces_raw(objs[i]) \
+                        or objs[j] is objs[i]:
+                    dev.append('copy-differs-from-original')
+                dev += spec_check(torf, objs[j], obs[j], root, detached[j])
+                dev += filter_codes(op, res, None, obs[j], None)
+            else:
+                res, dev = exec_op(torf, objs[i], op, root, held[i])
+                obs = [None, None]
+                obs[i] = project(objs[i], root)
+                obs[j] = project(objs[j], root)
+                if obs[i]['pieces'] is None or obs[i]['path'] is not None:
+                    detached[i] = False
+                dev += spec_check(torf, objs[i], obs[i], root, detached[i])
+                tree[i] = tree_after(op, res, tree[i])
+                dev += filter_codes(op, res, pre[i], obs[i], tree[i])
+                if obs[j] != pre[j] or _pieces_raw(objs[j]) != praw[j]:
+                    changed = sorted(k2 for k2 in obs[j] if obs[j][k2] != pre[j][k2]) or ['pieces(bytes)']
+                    dev.append('operation-on-one-object-changed-the-other(' + ','.join(changed) + ')')
+            pre = obs
+            praw = [_pieces_raw(objs[0]), _pieces_raw(objs[1])]
+            steps.append({'obs': obs, 'res': res, 'dev': dev})
+            if dev:
                 break
     except _Timeout:
         steps.append({'obs': None, 'res': 'timeout', 'dev': ['timeout']})
